@@ -285,6 +285,19 @@ def gen_schemas(quick: bool):
                 if orph:
                     sch["orphans_heat"] = list(orph)
                 yield sch
+                # devices bound to the controller but to no zone (the per-system 'orphans' list)
+                for tcs_orph in (("02:333333",), ("04:888888",), ("13:888888",), ("34:888888", "10:888888")):
+                    s2 = json.loads(json.dumps(sch))
+                    s2[ctl]["orphans"] = list(tcs_orph)
+                    yield s2
+
+
+def _orph_tag(sch: dict) -> str:
+    """':tcs-orphans' when the schema lists a non-UFC device in a controller's own 'orphans' (a recorded finding)."""
+    for v in sch.values():
+        if isinstance(v, dict) and any(o[:3] != "02:" for o in v.get("orphans") or ()):
+            return ":tcs-orphans"
+    return ""
 
 
 def shard_gen(arg) -> E.Tally:
@@ -308,7 +321,7 @@ def shard_gen(arg) -> E.Tally:
             try:
                 gwy = w.add_gateway(config={"disable_discovery": True, "enforce_known_list": False}, **json.loads(json.dumps(sch)))
             except Exception as e:  # noqa: BLE001
-                t.bad(f"C15:accepted-schema-does-not-load:{type(e).__name__}:{GC._origin(e)}", f"{json.dumps(sch)[:200]}: {str(e)[:140]}", rep)
+                t.bad(f"C15:accepted-schema-does-not-load:{type(e).__name__}:{GC._origin(e)}{_orph_tag(sch)}", f"{json.dumps(sch)[:200]}: {str(e)[:140]}", rep)
                 continue
             t.nontrivial += 1
             # what was configured is what is reported
@@ -394,7 +407,7 @@ def replay(rep: dict):
             # configuration-vs-report clauses
             tt = shard_gen((0, 1, True)) if False else None
         except Exception as e:  # noqa: BLE001
-            t.bad(f"C15:accepted-schema-does-not-load:{type(e).__name__}:{GC._origin(e)}", str(e)[:100], rep)
+            t.bad(f"C15:accepted-schema-does-not-load:{type(e).__name__}:{GC._origin(e)}{_orph_tag(rep['schema'])}", str(e)[:100], rep)
         finally:
             w.close()
         for q in (True, False):
@@ -433,7 +446,7 @@ def _one_gen(sch) -> E.Tally:
                 t.bad("C15:loaded-appliance-differs-from-configuration", "replay", rep)
         check_state(t, gwy, w, rep, "generated schema", False, 12)
     except Exception as e:  # noqa: BLE001
-        t.bad(f"C15:accepted-schema-does-not-load:{type(e).__name__}:{GC._origin(e)}", str(e)[:100], rep)
+        t.bad(f"C15:accepted-schema-does-not-load:{type(e).__name__}:{GC._origin(e)}{_orph_tag(rep['schema'])}", str(e)[:100], rep)
     finally:
         w.close()
     return t
